@@ -16,7 +16,7 @@ RULE = (
     "constructor; distinct = distinct (node names, edge set); non-trivial = every case (accepted: closure+order contract "
     "evaluated; refused: reference confirms a cycle/self-loop/unknown/isolated node)"
 )
-REQUIRED = {"contract_evaluations": 1000, "accepted": 1000, "refused": 1000, "model_graphs": 10, "incremental_equal": 30, "listing_checks": 1000, "fromdict_decorated_link_functions": 50, "mappings_in_different_key_orders": 300, "case_colliding_namings": 200}
+REQUIRED = {"contract_evaluations": 1000, "accepted": 1000, "refused": 1000, "model_graphs": 10, "incremental_equal": 30, "listing_checks": 1000, "fromdict_decorated_link_functions": 50, "fromdict_definitions_implementing_the_interface_directly": 50, "mappings_in_different_key_orders": 300, "case_colliding_namings": 200}
 EXHAUSTIVE = {"quick": True, "thorough": True}
 ASSUMPTIONS = [
     "exhaustive scopes are finite (n<=5, loop-free at n=5 in quick); beyond them graphs are sampled",
@@ -321,6 +321,35 @@ def run_shard(spec, ctx):
     ctx.count("contract_evaluations", _state["evals"])
 
 
+def _custom_variable(deps):
+    from leaspy.variables.specs import VariableInterface
+
+    class Affine(VariableInterface):
+        """A user-defined dependent variable: implements the documented interface without deriving from LinkedVariable."""
+        is_settable = False
+        fixed_shape = False
+
+        def __init__(self, deps):
+            self._deps = deps
+
+        def get_ancestors_names(self):
+            return self._deps
+
+        def compute(self, state):
+            return 0
+
+    return Affine(deps)
+
+
+def _linked_subclass():
+    from leaspy.variables.specs import LinkedVariable
+
+    class Traced(LinkedVariable):
+        pass
+
+    return Traced
+
+
 def _run_fromdict(spec, ctx, VariablesDAG):
     """Definitions given as real IndepVariable / LinkedVariable objects (dependencies inferred from signatures)."""
     from leaspy.variables.specs import IndepVariable, LinkedVariable
@@ -365,7 +394,17 @@ def _run_fromdict(spec, ctx, VariablesDAG):
                     import functools
 
                     fn = functools.partial(fn)  # a partial object without bound arguments: same signature
-                defs[nm] = LinkedVariable(fn)
+                how = int(r.integers(0, 6))
+                if how == 0:
+                    # a definition written against the public interface itself (VariableInterface is what the graph is documented to hold):
+                    # it declares its dependencies through get_ancestors_names() like every other kind
+                    defs[nm] = _custom_variable(frozenset(anc[nm]))
+                    ctx.count("fromdict_definitions_implementing_the_interface_directly")
+                elif how == 1:
+                    defs[nm] = _linked_subclass()(fn)
+                    ctx.count("fromdict_definitions_of_a_linked_subclass")
+                else:
+                    defs[nm] = LinkedVariable(fn)
             else:
                 defs[nm] = IndepVariable()
         reason = dagref.classify(names, anc)
